@@ -93,9 +93,7 @@ namespace Givaro {
         static BlocFreeList* _allocate (const size_t sz);
         inline static void* allocate (const size_t sz)
         {
-#ifdef __GIVARO_DEBUG
             if (sz ==0) return 0 ;
-#endif
             size_t index;
             BlocFreeList* tmp;
             if ((sz <= 32) && ((tmp=BlocFreeList::TabFree[index =sz-1]) !=0)) {
